@@ -70,7 +70,8 @@ func c14ReqKey(r *http.Request) string {
 		if step <= 0 {
 			step = 1
 		}
-		start := time.Unix(0, int64(st*1e9)).UTC()
+		// a range question is its expression, its step and its two ends to the step (what the cache key hashes)
+		start := time.Unix(0, int64(st*1e9)).UTC().Round(time.Duration(step * float64(time.Second)))
 		end := time.Unix(0, int64(en*1e9)).UTC().Round(time.Duration(step * float64(time.Second)))
 		return fmt.Sprintf("range|%s|%s|%s|%v", r.Form.Get("query"), start.Format(time.RFC3339), end.Format(time.RFC3339), step)
 	case "/api/v1/status/config":
@@ -539,16 +540,29 @@ func c14CacheOps(r *hx.Run) {
 	maxStale := int64(hx.Pick(rr, []int{50, 100, 1000}))
 	vc := promapi.VerifNewCache(time.Duration(maxStale), time.Unix(0, 0).UTC())
 	var ops, outs []string
+	now := int64(0)
+	expires := map[uint64]int64{} // key -> end of the lifetime it was stored with (positive ttl only)
+	violated := false
 	for i, n := 0, 5+rr.Intn(40); i < n; i++ {
 		k := uint64(rr.Intn(4))
 		switch rr.Intn(7) {
 		case 0, 1:
 			v, ttl := rr.Intn(100), hx.Pick(rr, []int{0, 0, 10, 60, 200})
 			vc.Set(k, v, time.Duration(ttl))
+			delete(expires, k)
+			if ttl > 0 {
+				expires[k] = now + int64(ttl)
+			}
 			ops = append(ops, fmt.Sprintf("s:%d:%d:%d", k, v, ttl))
 		case 2, 3:
 			v, ok := vc.Get(k)
 			ops = append(ops, fmt.Sprintf("g:%d", k))
+			if e, has := expires[k]; ok && has && now > e && !violated {
+				// the property itself: reused for its cache lifetime, not longer
+				violated = true
+				r.Violate(hx.Violation{Class: "answer-served-after-its-lifetime", Input: map[string]any{"max_stale": maxStale, "ops": strings.Join(ops, " ")},
+					Observed: fmt.Sprintf("get(%d) at t=%d is a hit", k, now), Expected: fmt.Sprintf("a miss: the entry's lifetime ended at t=%d", e)})
+			}
 			if ok {
 				outs = append(outs, fmt.Sprintf("h%d", v.(int)))
 			} else {
@@ -557,6 +571,7 @@ func c14CacheOps(r *hx.Run) {
 		case 4, 5:
 			d := hx.Pick(rr, []int{1, 5, 10, 30, 49, 50, 51, 99, 100, 101})
 			vc.Advance(time.Duration(d))
+			now += int64(d)
 			ops = append(ops, fmt.Sprintf("a:%d", d))
 		case 6:
 			vc.GC()
@@ -648,6 +663,42 @@ func runC14(r *hx.Run, replay string) {
 			cs3 := c14Case{Workers: 4, Callers: 8, DelayMs: 5, GoMaxProcs: 4, Rounds: 1, Seed: rr.Int63n(1 << 30),
 				Questions: []string{fmt.Sprintf("arange|up|%d|%d|300", t0, t0+3600), fmt.Sprintf("arange|up|%d|%d|300", t0-4*3600, t0+3600)}}
 			c14Eval(r, cs3)
+			// an unsplit query asked again a few seconds later (what a relative range with a short lookback is): to the
+			// step it is the same question
+			d := int64(1 + rr.Intn(100))
+			cs4 := c14Case{Workers: 4, Callers: 6, DelayMs: 5, GoMaxProcs: 4, Rounds: 2, Seed: rr.Int63n(1 << 30),
+				Questions: []string{fmt.Sprintf("arange|up|%d|%d|300", t0+1, t0+3601), fmt.Sprintf("arange|up|%d|%d|300", t0+1+d, t0+3601+d)}}
+			c14Eval(r, cs4)
+			c14Cancelled(r)
+		}
+	}
+}
+
+// c14Cancelled: a caller that gives up gets an error, never an empty answer that looks like a successful one
+// ("all callers receive equal results")
+func c14Cancelled(r *hx.Run) {
+	srv := &c14Server{delayMs: 200, counts: map[string]int{}}
+	ts := httptest.NewServer(srv)
+	defer ts.Close()
+	prom := promapi.NewPrometheus("p", ts.URL, "", nil, 10*time.Second, 4, 100000, nil)
+	fg := promapi.NewFailoverGroup("p", ts.URL, []*promapi.Prometheus{prom}, true, "up", nil, nil, nil)
+	reg := prometheus.NewRegistry()
+	fg.StartWorkers(reg)
+	defer fg.Close(reg)
+	for _, lb := range []time.Duration{time.Hour, 6 * time.Hour} {
+		ctx, cancel := context.WithCancel(context.Background())
+		go func() {
+			time.Sleep(time.Duration(5+r.Rng.Intn(20)) * time.Millisecond)
+			cancel()
+		}()
+		res, err := fg.RangeQuery(ctx, "count(up)", promapi.NewRelativeRange(lb, 5*time.Minute))
+		cancel()
+		r.Case(fmt.Sprint("cancelled", lb), true)
+		r.Count("cancelled-range-calls")
+		if err == nil && len(res.Series.Ranges) == 0 {
+			r.Violate(hx.Violation{Class: "cancelled-call-looks-successful", Input: map[string]any{"lookback": lb.String(), "question": "count(up)"},
+				Observed: "err == nil, 0 ranges", Expected: "an error (a caller that is served gets one range for this question)"})
+			return
 		}
 	}
 }
